@@ -107,7 +107,7 @@ func genC15Request(r *Rng) c15req {
 				if tag, ok := f.Tag("form"); ok && tag == f.Key+"[]" {
 					m.M = append(m.M, KV{"!" + f.Key, VS("strayP" + []string{"J", "F", "Q"}[src])})
 				} else if !ok {
-					m.M = append(m.M, KV{"!" + f.Key + "[]", VL(VS("strayB"+[]string{"J", "F", "Q"}[src]))})
+					m.M = append(m.M, KV{"!" + f.Key + "[]", VL(VS("strayB" + []string{"J", "F", "Q"}[src]))})
 				}
 			}
 		}
